@@ -213,3 +213,27 @@ def judge_completion(world, out, prop):
                                 "msg": e.get("msg", "")[:300], "phase": e.get("phase"),
                                 "tb": e.get("tb", "")[-900:]}, "world": world})
     return viol
+
+
+def judge_idempotent(world, out, prop="C15"):
+    """Finished runs are idempotent: every later incarnation that resumes the
+    final checkpoint reports the same digest of samples / evidence / weights /
+    evaluation count."""
+    recs = out["records"]
+    viol = []
+    digs = [(r["i"], r["digest"], r.get("n"), r.get("evals")) for r in recs if r["k"] == "run_digest"]
+    fin = {r["i"]: r for r in recs if r["k"] == "constructed"}
+    base = None
+    n = 0
+    for (i, d, nn, ev) in digs:
+        c = fin.get(i)
+        if base is None:
+            base = (i, d, nn, ev)
+            continue
+        if c is not None and c.get("resumed") and c.get("finalised"):
+            n += 1
+            if d != base[1]:
+                viol.append({"oracle": f"{prop}-resume-changed", "key": f"{prop}-resume-changed|{world['scenario']['sampler']}",
+                             "detail": {"first": {"inc": base[0], "n": base[2], "evals": base[3]},
+                                        "later": {"inc": i, "n": nn, "evals": ev}}, "world": world})
+    return viol, {"resume_after_finish_compared": n}
